@@ -40,22 +40,22 @@ def tasks(tier, seed):
         ts.append({"part": "short", "n": n, "api": "send", "bound": 2 if q else 3, "name": "short/send/%d" % n})
     for nthreads in (2, 3):
         for accept in (None, "one", "half"):
-            ts.append({"part": "senders", "threads": nthreads, "accept": accept, "line": False, "bound": (2 if q else 3) if nthreads == 2 else (1 if q else 2),
+            ts.append({"part": "senders", "threads": nthreads, "accept": accept, "line": False, "bound": (4 if q else 6) if nthreads == 2 else (2 if q else 4),
                        "name": "senders/%d/%s/sync" % (nthreads, accept)})
     for accept in (None, "one"):
         for k in range(8):
-            ts.append({"part": "senders", "threads": 2, "accept": accept, "line": True, "bound": 1 if q else 2, "shard": [k, 8, 2], "name": "senders/2/%s/line/%d" % (accept, k)})
-    ts.append({"part": "receivers", "line": False, "bound": 2 if q else 3, "name": "receivers/sync"})
+            ts.append({"part": "senders", "threads": 2, "accept": accept, "line": True, "bound": 2 if q else 4, "shard": [k, 8, 2], "name": "senders/2/%s/line/%d" % (accept, k)})
+    ts.append({"part": "receivers", "line": False, "bound": 4 if q else 6, "name": "receivers/sync"})
     for k in range(4):
-        ts.append({"part": "receivers", "line": True, "bound": 1, "shard": [k, 4, 2], "name": "receivers/line/%d" % k})
+        ts.append({"part": "receivers", "line": True, "bound": 2, "shard": [k, 4, 2], "name": "receivers/line/%d" % k})
     # two threads calling recv_frame() directly (frame lock only): unfragmented frames
-    ts.append({"part": "framereceivers", "line": False, "bound": 2 if q else 3, "name": "framereceivers/sync"})
+    ts.append({"part": "framereceivers", "line": False, "bound": 4 if q else 6, "name": "framereceivers/sync"})
     for k in range(4):
-        ts.append({"part": "framereceivers", "line": True, "bound": 1, "shard": [k, 4, 2], "name": "framereceivers/line/%d" % k})
+        ts.append({"part": "framereceivers", "line": True, "bound": 2, "shard": [k, 4, 2], "name": "framereceivers/line/%d" % k})
     for accept in (None, "one"):
-        ts.append({"part": "mixed", "accept": accept, "line": False, "bound": 2 if q else 3, "name": "mixed/%s/sync" % accept})
+        ts.append({"part": "mixed", "accept": accept, "line": False, "bound": 4 if q else 6, "name": "mixed/%s/sync" % accept})
     for k in range(4):
-        ts.append({"part": "mixed", "accept": "one", "line": True, "bound": 1, "shard": [k, 4, 2], "name": "mixed/one/line/%d" % k})
+        ts.append({"part": "mixed", "accept": "one", "line": True, "bound": 2, "shard": [k, 4, 2], "name": "mixed/one/line/%d" % k})
     return ts
 
 
@@ -110,7 +110,7 @@ class ShortHarness:
 def make_conn(ch, d, stream=None):
     lib.reset_globals()
     env.install_urandom("counter")
-    sc = S.Sched(ch, line_level=d.get("line", False), horizon=100.0, max_steps=20000)
+    sc = S.Sched(ch, line_level=d.get("line", False), horizon=100.0, max_steps=20000, preempt_cost=2, tie_cost=1)
     S.install(sc)
     net = tnet.TNet([])
     sock = tnet.TSock(net, 0)
